@@ -22,6 +22,7 @@ type Violation struct {
 	Detail    string            `json:"detail,omitempty"`
 	Model     map[string]string `json:"model"`
 	Choices   map[string]int    `json:"choices"`
+	Observed  map[string]string `json:"observations_before_failure,omitempty"`
 	Decisions []string          `json:"decisions"`
 	Harness   string            `json:"harness"`
 }
@@ -88,6 +89,7 @@ type Exec struct {
 	crashIsViol  string
 	inInit       int
 	panicSite    string
+	abortSite    string
 	recovered    []string
 	stubs        map[string]bool
 	assumptions  map[string]bool
@@ -344,10 +346,18 @@ func normVal(s string) string {
 
 func (x *Exec) violation(kind, label, site, detail string, extra ...*sym.Term) {
 	var want []*sym.Term
+	var names []string
 	for _, n := range x.varOrder {
 		want = append(want, x.vars[n].Term)
+		names = append(names, "v:"+n)
 	}
-	m, ok := x.modelWith(extra, want, x.varOrder)
+	for k, o := range x.obs {
+		if o.Term != nil {
+			want = append(want, o.Term)
+			names = append(names, fmt.Sprintf("o:%d", k))
+		}
+	}
+	m, ok := x.modelWith(extra, want, names)
 	if !ok {
 		if len(want) == 0 {
 			m = map[string]string{}
@@ -356,12 +366,27 @@ func (x *Exec) violation(kind, label, site, detail string, extra ...*sym.Term) {
 			return
 		}
 	}
+	model := map[string]string{}
+	for _, n := range x.varOrder {
+		if x.vars[n].Kind == "bloblen" {
+			continue // lengths of serialised blobs are not inputs of the native run
+		}
+		model[n] = m["v:"+n]
+	}
+	obs := map[string]string{}
+	for k, o := range x.obs {
+		if o.Term != nil {
+			obs[o.Name] = m[fmt.Sprintf("o:%d", k)]
+		} else {
+			obs[o.Name] = o.Conc
+		}
+	}
 	ch := map[string]int{}
 	for k, v := range x.choices {
 		ch[k] = v
 	}
 	x.res.Violations = append(x.res.Violations, &Violation{
-		Kind: kind, Label: label, Site: site, Detail: detail, Model: m, Choices: ch,
+		Kind: kind, Label: label, Site: site, Detail: detail, Model: model, Choices: ch, Observed: obs,
 		Decisions: append([]string(nil), x.trace...), Harness: x.Harness,
 	})
 }
@@ -495,6 +520,9 @@ func (x *Exec) witness(status, detail string) *Witness {
 	}
 	w := &Witness{Model: map[string]string{}, Choices: map[string]int{}, Expected: map[string]string{}, Status: status, Detail: detail}
 	for _, n := range x.varOrder {
+		if x.vars[n].Kind == "bloblen" {
+			continue
+		}
 		w.Model[n] = m["v:"+n]
 	}
 	for k, v := range x.choices {
